@@ -32,7 +32,8 @@ def proof_block(rep, prop_id, coq_ok, coq_out):
         "obligations": len(theorems),
         "discharged": len(theorems) if built and not forb and not axioms and closed >= len(theorems) else 0,
         "theorems": theorems,
-        "checker_cmd": "make -C coq (coqc 8.16.1, full .vo build) && coqc properties/%s.v (Print Assumptions under every theorem)" % prop_id,
+        "checker_cmd": "make -C coq (coqc 8.16.1, full .vo build) && coqc %s (Print Assumptions under every theorem)"
+                       % " ".join("properties/" + os.path.basename(f) for f in cm.prop_files(prop_id)),
         "closed_under_global_context": closed,
         "axioms_reported": axioms,
         "trusted_base": cm.TRUSTED_BASE,
@@ -584,11 +585,42 @@ def check_c09(rep, tier, seed, wd, replay):
             rep.add_violation("oracle", "case %s: %s" % (c["id"], p), cl.lex_replay(c))
         if c.get("_disagree"):
             rep.add_violation("correspondence", "case %s: %s" % (c["id"], c["_disagree"]), cl.lex_replay(c), failing_input=bool(probs))
+    # the non-indexed message iterator over the same cuts (Next and NextInto alternately)
+    rcases = []
+    for fi, f in enumerate(files):
+        if f["o"]["skipmagic"] or f["o"].get("custom"):
+            continue
+        into = ["into"] if fi % 2 else []
+        rcases.append({"id": "%s_rfull" % f["id"], "file": f["file"], "ropts": ["index:0"], "ops": [["messages"] + into], "base": f})
+        for cut in range(len(f["file"])):
+            rcases.append({"id": "%s_rcut%d" % (f["id"], cut), "file": f["file"][:cut], "ropts": ["index:0"], "ops": [["messages"] + into], "base": f, "cut": cut})
+    go_r, model_r, nd2 = read_corr(rep, rcases, wd, "c09r", compare_slots=False)
+    nrcuts = 0
+    for c in rcases:
+        g = go_r.get(c["id"])
+        full = go_r.get("%s_rfull" % c["base"]["id"])
+        probs = []
+        if g is not None and "cut" in c and full and full["ops"]:
+            nrcuts += 1
+            fo = full["ops"][-1]
+            if g["panic"] or (g["ops"] and g["ops"][-1]["panic"]):
+                probs.append("message iterator crashed on the truncated file: %s" % (g["panic"] or g["ops"][-1]["panic"]))
+            elif g["ops"] and (g["ops"][-1]["head"] or "").startswith("messages ok"):
+                o = g["ops"][-1]
+                if o["msgs"] != fo["msgs"][:len(o["msgs"])]:
+                    probs.append("messages returned for the truncated file are not a prefix of the original sequence")
+                if o["end"] is None:
+                    probs.append("read of a truncated file did not end")
+                want = sum(n for end, n in c["base"].get("chunk_ends", []) if end <= c["cut"])
+                if len(o["msgs"]) < want:
+                    probs.append("cut at %d: %d messages of completely written chunks, only %d returned by the iterator" % (c["cut"], want, len(o["msgs"])))
+        report_case(rep, c, probs[:2], cr.read_replay)
+    nd += nd2
     distinct = len(set((c["base"]["id"], c.get("cut")) for c in cases))
-    cov = summarize(rep, len(cases), distinct,
-                    "files written by the real writer (none/zstd/lz4/xor, chunked or not), every cut position 0..len-1 (exhaustive per file), validation on/off, seekable/non-seekable source, attachment callback reading all data; compared with the lexer model event by event; oracle: events of the cut file are a prefix of the uncut file's (last attachment may have fewer data bytes), the read ends, no crash, all messages of fully written chunks returned",
+    cov = summarize(rep, len(cases) + len(rcases), distinct,
+                    "files written by the real writer (none/zstd/lz4/xor, chunked or not), every cut position 0..len-1 (exhaustive per file), validation on/off, seekable/non-seekable source, attachment callback reading all data; compared with the lexer model event by event; the same cuts through Messages(UsingIndex(false)) with Next and NextInto, compared with the reader model; oracle: events of the cut file are a prefix of the uncut file's (last attachment may have fewer data bytes), the read ends, no crash, all messages of fully written chunks returned",
                     [cl.lex_replay(c)[:4] for c in cases[1:3]],
-                    {"files": len(files), "cuts": ncuts, "disagreements": nd, "exhaustive": True,
+                    {"files": len(files), "cuts": ncuts, "iterator_cuts": nrcuts, "disagreements": nd, "exhaustive": True,
                      "compressions": sorted(set(f["o"]["comp"] for f in files))})
     return cov, ["streaming decompressors are oracles: their behaviour on each truncated payload is recorded by calling the codec directly"]
 
